@@ -65,7 +65,7 @@ def gen(rng, scenario, tier):
         rows = block * rng.randint(3, 5)
         cfg["divergence_metric"] = rng.choice(["intersection", "intersection", "kl"])
         return {"cfg": cfg, "events": rows}
-    rows, drifts = workload.mv_stream(rng, rng.randint(3 * w, 8 * w), d, drift_rate=rng.choice([0.005, 0.01, 0.02]))
+    rows, drifts = workload.mv_stream(rng, rng.randint(3 * w, 8 * w), d, drift_rate=rng.choice([0.005, 0.01, 0.02]), regimes=("tiny",))
     return {"cfg": cfg, "events": rows, "drift_positions": drifts}
 
 
